@@ -166,6 +166,11 @@ func ruleEUnits(p *Program, r *Reporter) {
 					if ux <= uConst && uy <= uConst {
 						continue
 					}
+					if (x.Op == token.ADD || x.Op == token.SUB) && (isPhys(ux) && nonzeroConst(x.Y) || isPhys(uy) && nonzeroConst(x.X)) {
+						n++
+						r.Bad(instrPos(x), fmt.Sprintf("%s int-op#%d %s", name, n, x.Op), "a byte offset is moved by a constant ("+x.String()+"): widths of characters come from decoding, a fixed step lands inside a multi-byte character")
+						continue
+					}
 					n++
 					key := fmt.Sprintf("%s int-op#%d %s", name, n, x.Op)
 					if isPhys(ux) && uy == uLogic || ux == uLogic && isPhys(uy) {
